@@ -9,7 +9,7 @@ The per-chunk functions of the real algorithms (`chunk_additive`) and whole pi(x
 checked by the other half of C03 (not in this file).
 """
 from ..runner import Stream
-from . import c09, c08leaf
+from . import c09, c08leaf, c08hard
 from .. import p2loop
 
 # extra property files PcProps/C03Leaf.lean, C03P2.lean are auto-discovered by the runner
@@ -60,7 +60,7 @@ def streams(ctx):
             for pr in (0, 1):
                 ac.append("lbac %d %d %d %d %d %d %d %d" % (sq, y, t, pr, rng.getrandbits(32), cap, rng.choice((0, 1, 2, 3)), 0))
     return [c09.make_stream("lbs2-teams", s2, ctx=ctx), c09.make_stream("lbp2-teams", p2, ctx=ctx),
-            c09.make_stream("lbac-teams", ac, ctx=ctx)] + granted_streams(ctx) + c08leaf.c03_streams(ctx) + p2loop.c03_streams(ctx)
+            c09.make_stream("lbac-teams", ac, ctx=ctx)] + granted_streams(ctx) + c08leaf.c03_streams(ctx) + p2loop.c03_streams(ctx) + c08hard.c03_streams(ctx)
 
 
 def granted_streams(ctx):
